@@ -627,3 +627,133 @@ func receiverFor(fn *ssa.Function, T *types.Named, obj *absint.Tok) absint.Value
 	}
 	return obj
 }
+
+// runWiringRules: App.Run applies the caller's options before it hands the registry and the configuration to the
+// factory, and what it hands over is what the App holds then: an option that replaces the configuration (or the
+// registry, or the factory) reaches the factory the components are created by.  Interpreted on an App whose three
+// parts are tokens and three options that replace them; everything outside package app is an opaque event.
+func runWiringRules(c *core.Ctx, r *core.Report, rule string) {
+	appT := c.Named("app", "App")
+	run := c.DeclaredMethod(appT, "Run")
+	setCfg := c.IfaceMethod("container", "Factory", "SetConfigure")
+	setReg := c.IfaceMethod("container", "Factory", "SetRegistry")
+	if appT == nil || run == nil || setCfg == nil || setReg == nil || len(run.Params) != 2 {
+		r.Undecided(rule, "role:App.Run", "", "(*App).Run(ops ...SettingOption) / Factory.SetConfigure / SetRegistry not found")
+		return
+	}
+	bad := ""
+	runs := 0
+	for _, which := range []string{"none", "configure", "registry", "factory", "all"} {
+		var events []string
+		var app *absint.Tok
+		build := func() (absint.Oracle, []absint.Value, []absint.Value) {
+			events = nil
+			t := newTbl(c)
+			app = absint.NewTok("app", "app")
+			app.Fields["Configure"], app.Fields["registry"], app.Fields["Factory"] = absint.NewTok("cfg0", "configure"), absint.NewTok("reg0", "registry"), absint.NewTok("fac0", "factory")
+			// nothing was wired: no runners, no closers
+			t.field = func(ip *absint.Interp, obj *absint.Tok, name string, typ types.Type) absint.Value {
+				if _, isSl := typ.Underlying().(*types.Slice); isSl && obj == app {
+					return &absint.List{IsNil: true}
+				}
+				return nil
+			}
+			// functions of other packages are opaque
+			seen := map[*ssa.Function]bool{}
+			var walk func(fn *ssa.Function)
+			walk = func(fn *ssa.Function) {
+				if seen[fn] || fn.Blocks == nil {
+					return
+				}
+				seen[fn] = true
+				for _, g := range core.WithAnon(fn) {
+					for _, ci := range core.Calls(g) {
+						cal := ci.Common().StaticCallee()
+						if cal == nil || !c.InScope(cal) {
+							continue
+						}
+						if core.PkgOf(cal) != nil && core.PartOf(core.PkgOf(cal), core.PkgOf(run)) {
+							walk(cal)
+							continue
+						}
+						calF := cal
+						t.callee[cal] = func(ip *absint.Interp, a []absint.Value) absint.Value {
+							return absint.NewTok(core.FnName(calF)+"()", "opaque")
+						}
+					}
+				}
+			}
+			walk(run)
+			t.invoke[setCfg] = func(ip *absint.Interp, a []absint.Value) absint.Value {
+				events = append(events, "SetConfigure("+absint.Show(a[0])+","+absint.Show(a[1])+")")
+				return nil
+			}
+			t.invoke[setReg] = func(ip *absint.Interp, a []absint.Value) absint.Value {
+				events = append(events, "SetRegistry("+absint.Show(a[0])+","+absint.Show(a[1])+")")
+				return nil
+			}
+			// everything else asked of the parts succeeds and does nothing
+			for _, n := range []string{"Initialize", "PrepareComponents", "Refresh", "RegisterSingleton", "AddLoaders", "SetLoaders", "SetBinder"} {
+				t.invokeN[n] = func(ip *absint.Interp, a []absint.Value) absint.Value { return absint.Nil{} }
+			}
+			t.dynamic = func(ip *absint.Interp, fn absint.Value, a []absint.Value) (absint.Value, bool) {
+				o, ok := fn.(*absint.Tok)
+				if !ok || o.Class != "option" || len(a) != 1 || a[0] != absint.Value(app) {
+					return nil, false
+				}
+				switch o.ID {
+				case "opt-configure":
+					app.Fields["Configure"] = absint.NewTok("cfg1", "configure")
+				case "opt-registry":
+					app.Fields["registry"] = absint.NewTok("reg1", "registry")
+				case "opt-factory":
+					app.Fields["Factory"] = absint.NewTok("fac1", "factory")
+				}
+				return nil, true
+			}
+			t.global = func(g *ssa.Global) absint.Value {
+				if _, isSl := g.Type().Underlying().(*types.Pointer).Elem().Underlying().(*types.Slice); isSl {
+					return &absint.List{IsNil: true}
+				}
+				return nil
+			}
+			ops := &absint.List{}
+			for _, k := range []string{"configure", "registry", "factory"} {
+				if which == k || which == "all" {
+					ops.Elems = append(ops.Elems, absint.NewTok("opt-"+k, "option"))
+				}
+			}
+			ops.IsNil = len(ops.Elems) == 0
+			return t, []absint.Value{app, ops}, nil
+		}
+		check := func(ip *absint.Interp, out absint.Outcome) {
+			want := func(k, zero, one string) string {
+				if which == k || which == "all" {
+					return one
+				}
+				return zero
+			}
+			fac := want("factory", "fac0", "fac1")
+			lastCfg, lastReg := "", ""
+			for _, e := range events {
+				if strings.HasPrefix(e, "SetConfigure("+fac+",") {
+					lastCfg = e
+				}
+				if strings.HasPrefix(e, "SetRegistry("+fac+",") {
+					lastReg = e
+				}
+			}
+			wc := "SetConfigure(" + fac + "," + want("configure", "cfg0", "cfg1") + ")"
+			wr := "SetRegistry(" + fac + "," + want("registry", "reg0", "reg1") + ")"
+			if out.Panic != nil || lastCfg != wc || lastReg != wr {
+				bad = fmt.Sprintf("options replacing %s: the factory is last given %q and %q, want %q and %q (events %v => %s)", which, lastCfg, lastReg, wc, wr, events, showOutcome(out))
+			}
+		}
+		n, u := runTable(c, run, build, check)
+		runs += n
+		if u != "" {
+			bad = "left the model: " + u
+		}
+	}
+	r.Check(bad == "", rule, "run-wiring@"+core.FnName(run), c.FnPos(run), fmt.Sprintf("App.Run hands the factory the registry and the configuration the App holds after the caller's options were applied (%d abstract runs) %s", runs, bad))
+}
